@@ -32,6 +32,10 @@ CHECKS = {
                 technique="explicit-state search on the real emulator: state = stacks of open regions of a thread (depth <= 2), every documented event of the model probed in every state against a stack reference; golden value/label table; binding pass through the real ovniemu",
                 text="For each of the eight models every nesting of depth <= 2 of its documented enter events is reached on the real emulator and every documented argument-less event is probed there: the matching leave must be accepted, every other leave refused, every non-re-entering enter accepted, and thread and CPU rows must show the documented value of the innermost open region. Also: required thread state (6 states x in/out of CPU), lint on open regions for all enter events, a depth-512 path with the 513th push refused, and .pcf labels.",
                 note="Trusted: doc/user/emulation/events.md for the event list and pairing, golden/enter_values.json (frozen after manual review), lib/pv.py. Immediate re-entry of the innermost region may go either way. Depth bound 2 (+ one 512 path)."),
+    "C13": dict(level="model_checking", engine="E6 real ovniemu + lib/pv.py", ref="DESIGN.md 5 (C13)",
+                technique="exhaustive enumeration of a finite configuration x model x history space; every accepted trace is produced by the real ovniemu binary and all .prv/.pcf/.row files are parsed and validated by an independent checker",
+                text="Looms 1-2 x processes 1-2 x threads 1-2 x CPUs 1-2 x rank on/off x 8 models x {plain, every documented enter/leave pair on all threads, nesting, tasks with shared and private type labels per process, breakdown -b, flush, affinity/state changes}: for every accepted trace timestamps are non-decreasing, rows within the declared count, header duration = last event time, every event type declared in the .pcf, every non-zero value of a state type labelled, .row names exactly the rows in the documented order.",
+                note="Trusted: lib/pv.py and lib/obs.py; the documented row order encoded in checks/c13.py:expected_rows; bounded configuration space (<= 2 looms/processes/threads/CPUs)."),
 }
 
 ORDER = ["C%02d" % i for i in range(1, 21)]
